@@ -112,6 +112,7 @@ type GasScheduler interface {
 
 // Shard is one shard of the world.
 type Shard struct {
+	Idx       int // index in World.Shards (the metachain shard, when present, is the last one)
 	ID        uint32
 	N         uint32
 	Accounts  map[string]*Account
